@@ -57,8 +57,9 @@ def run(c, facts, tier):
     fa = facts.fn("Expression::action")
     r = treeq.check_exists(facts, fa)
     c.ob("C09.detect", fa.key, "action() = 'an action node occurs at some depth'", r["ok"], "; ".join(r["problems"]) or "complete recursion over Precedence/Not/And/Or/List; wildcard hides only %s" % r["hidden"], witness="! -print  /  -false -o -print" if not r["ok"] else None)
-    leaf_ok = r["leaf"] is not None and rx.peel(r["leaf"]["body"])["k"] == "lit" and rx.peel(r["leaf"]["body"])["v"] is True
-    c.ob("C09.detect", fa.key, "Action(_) → true", leaf_ok, "Action arm: %s" % (src(r["leaf"]["body"]) if r["leaf"] else None))
+    act_vals = {a: [v_ for _, v_ in rows] for a, rows in (r.get("action") or {}).items()}
+    leaf_ok = bool(act_vals) and all(all(v_ is True for v_ in vs) for vs in act_vals.values())
+    c.ob("C09.detect", fa.key, "Action(_) → true", leaf_ok, "value for an action node: %s" % ({a: sorted(set(map(str, vs))) for a, vs in act_vals.items() if not all(v_ is True for v_ in vs)} or "true for all %d actions" % len(act_vals)))
     # exp.clone() must be a faithful copy: Clone is derived on every AST type, no hand-written impl
     ast_types = ["Expression", "Operator", "Test", "Action", "Comparison", "Size", "TimeSpec", "FileType", "PermCheck", "Permission", "FormatElement", "FormatField", "FormatSpecial", "GlobalOption", "PositionalOption"]
     bad = []
